@@ -1,6 +1,7 @@
 //! acb_verif_harness: correspondence harness between the real acb code and the Lean model.
 //! Usage: acb_verif_harness <family> --seed N --count N
 //! Writes protocol lines (see lean/Driver/Proto.lean) to stdout.
+mod app;
 mod common;
 mod ledger;
 mod rng;
@@ -34,6 +35,16 @@ fn main() {
                 let c = ledger::gen_case(&mut cr);
                 let mut s = String::new();
                 ledger::run_case(&format!("L{}-{}", seed, i), &c, &mut s);
+                w.write_all(s.as_bytes()).unwrap();
+            }
+        }
+        "app" => {
+            let mut r = rng::Rng::new(seed ^ 0xA99);
+            for i in 0..count {
+                let mut cr = r.fork();
+                let c = app::gen_case(&mut cr);
+                let mut s = String::new();
+                app::run_case(&format!("A{}-{}", seed, i), &c, &mut s);
                 w.write_all(s.as_bytes()).unwrap();
             }
         }
